@@ -267,9 +267,64 @@ def h_def_limit(ctx):
     return Outcome(f"def:{cls}:{'ok' if not vs else 'bad'}", vs, nontrivial=(alg, enc, form, cls, n))
 
 
+# ------------------------------------------------------------------ E3: two encrypt-then-decrypt round trips at the same time
+T_OPS = [("A128KW", "oct16", 0, "A128GCM", "compact", None), ("A128KW", "oct16", 1, "A128CBC-HS256", "flattened", "DEF"), ("dir", "oct16", 0, "A128GCM", "compact", "DEF"),
+         ("A128GCMKW", "oct16", 0, "A128GCM", "general", None), ("PBES2-HS256+A128KW", "oct20", 0, "A128GCM", "compact", None),
+         ("PBES2-HS256+A128KW", "oct20", 1, "A128GCM", "compact", None), ("ECDH-ES", "P-256", 0, "A256GCM", "compact", None),
+         ("ECDH-ES+A128KW", "P-256", 1, "A128GCM", "flattened", None), ("RSA-OAEP", "rsa", 0, "A128GCM", "compact", None)]
+
+
+def h_threads(ctx):
+    from .. import conc
+
+    def pt_of(spec):
+        return ("plaintext of %s/%s/%d " % spec[:3]).encode() * 3
+
+    def op(spec):
+        alg, kind, which, enc, form, zipv = spec
+
+        def run(sh):
+            prot = {"alg": alg, "enc": enc}
+            if zipv:
+                prot["zip"] = zipv
+            if alg.startswith("PBES2"):
+                prot["p2c"] = 1000
+            pub, priv = sh[(kind, which)]
+            r = scen.jwe_encrypt(form, prot, pt_of(spec), pub, [alg, enc, "DEF"])
+            d = scen.jwe_decrypt(copy.deepcopy(r.value), priv, [alg, enc, "DEF"]) if r.ok else None
+            return (spec, r, d)
+        return (f"round trip {alg} {enc} {form} zip={zipv} key {kind}/{which}", run)
+
+    def judge(name, o, sh):
+        spec, r, d = o
+        alg, kind, which, enc, form, zipv = spec
+        fam = alg.split("+")[0] if alg.startswith(("ECDH", "PBES2")) else (alg if not alg.endswith("GCMKW") else "GCMKW")
+        if not r.ok:
+            return (f"encryption fails while another JWE call runs: {fam}", f"{name}: {r.exc!r}")
+        bad = []
+        try:
+            if rjwe.decrypt(r.value, scen.key(kind, which))[0] != pt_of(spec):
+                bad.append((f"a token encrypted while another JWE call runs decrypts to other content (reference decryptor): {fam}", name))
+        except RefError as e:
+            bad.append((f"a token encrypted while another JWE call runs is not decryptable by the reference: {fam}", f"{name}: {e!r}"))
+        if not d.ok or d.value[0] != pt_of(spec):
+            bad.append((f"encrypt-then-decrypt does not return the plaintext while another JWE call runs: {fam}", f"{name}: {d.exc!r} {str(d.value)[:80] if d.ok else ''}"))
+        return bad or None
+
+    def shared():
+        out = {}
+        for _, kind, which, _, _, _ in T_OPS:
+            jwk = scen.key(kind, which)
+            out[(kind, which)] = (A.jkey(jwk, "dict", private=(jwk["kty"] == "oct")), A.jkey(jwk, "dict"))
+        return out
+    menu = T_OPS if config.thorough() else [T_OPS[i] for i in (0, 2, 3, 4, 5, 6)]
+    return conc.pairs(ctx, [op(s_) for s_ in menu], shared, judge, thorough=config.thorough())
+
+
 _pf = Part("forbidden-mixes", h_forbidden, split_depth=2)
 _pf.single_bucket_ok = True
 PARTS = [
+    Part("thread-schedules", h_threads, bound={"quick": 1, "thorough": 2}, split_depth=2, budget={"quick": 240, "thorough": 3000}, engine="E3"),
     Part("single-recipient", h_single, bound={"quick": 1, "thorough": 2}, split_depth=2, budget={"quick": 150, "thorough": 2400}),
     Part("multi-recipient", h_multi, bound={"quick": 1, "thorough": 2}, split_depth=2, budget={"quick": 120, "thorough": 1800}),
     _pf,
